@@ -43,4 +43,15 @@ MUTANTS = [
     ("C04", "tap31-27-late", D, "31: [31, 28],", "31: [31, 25],"),
     ("C04", "no-warning-on-zero-seed", D, "        seed = 1\n        warnings.warn(", "        seed = 1\n        (lambda *a, **k: None)("),
     ("C04", "mask-drops-msb-order20", D, "lfsr = ((lfsr << 1) | new) & (1 << order) - 1", "lfsr = ((lfsr << 1) | new) & ((1 << order) - 1 if order != 20 or index % 1048570 else (1 << order) - 2)"),
+    # ---- C05
+    ("C05", "rz-mask-ceil", D, "rz_pulse[: sps // 2] = 1", "rz_pulse[: (sps + 1) // 2] = 1"),
+    ("C05", "gauss-impulse-shift", D, "        s[int(sps // 2) :: sps] = input.data\n        s[int(sps // 2 - 1) :: sps] = input.data", "        s[int(sps // 2 + 2) :: sps] = input.data\n        s[int(sps // 2 + 1) :: sps] = input.data"),
+    ("C05", "sampler-signal-only", D, "    output = input[instant :: gv.sps]\n", "    output = input[instant :: gv.sps]\n    if output.noise is not None and output.len() > 150: output.noise = output.noise * 0\n"),
+    ("C05", "sampler-instant-plus1", D, "    output = input[instant :: gv.sps]\n", "    output = input[instant + (1 if gv.sps == 33 else 0) :: gv.sps]\n"),
+    ("C05", "dac-kron-sps-minus1-odd", D, "        x = np.kron(input.data, np.ones(sps))\n\n    elif pulse_shape in [\"rz\", \"RZ\"]:", "        x = np.kron(input.data, np.ones(sps))\n        if sps == 97: x = np.roll(x, 1)\n\n    elif pulse_shape in [\"rz\", \"RZ\"]:"),
+    ("C05", "gauss-width-factor", D, "k = 2 * (2 * np.log(2)) ** (", "k = 2.4 * (2 * np.log(2)) ** ("),
+    ("C05", "vout-limit-relaxed", D, "        if np.abs(Vout) >= 48:", "        if np.abs(Vout) > 48.5:"),
+    ("C05", "T-float-accepted", D, "        if not isinstance(T, int):", "        if not isinstance(T, (int, float)):"),
+    ("C05", "bias-after-abs", D, "        x = x + bias\n", "        x = x + (bias if bias > -47.5 else -bias)\n"),
+    ("C05", "gauss-amplitude-m4", D, "        x = sg.fftconvolve(s, pulse, mode=\"same\") / 2", "        x = sg.fftconvolve(s, pulse, mode=\"same\") / (2 if m < 4 else 2.2)"),
 ]
